@@ -1243,6 +1243,31 @@ class Prov:
             return None
         return None
 
+    def resolve_upvars(self, cf, origins, hops=3):
+        """Origins of kind `upvar` (a closure's captured variable) replaced by the origins of what was captured, looked up
+        where the closure is constructed. Values computed before a `.map(|x| ..)` and used inside it keep their source."""
+        out = set()
+        for o in origins:
+            if o.kind != "upvar" or hops <= 0 or cf.kind != "Closure":
+                out.add(o)
+                continue
+            found = False
+            for g in self.facts.fns.values():
+                if g.crate != cf.crate:
+                    continue
+                for blk in g.blocks:
+                    for st in blk["stmts"]:
+                        if st["k"] == "assign" and st["rv"]["k"] == "agg" and st["rv"].get("closure") == cf.path:
+                            rv = st["rv"]
+                            for i, n in enumerate(rv.get("fields", [])):
+                                if (n == o.key or o.key == "*") and i < len(rv["ops"]):
+                                    found = True
+                                    for o2 in self.resolve_upvars(g, self._rec(g, rv["ops"][i], o.path, 0, set()), hops - 1):
+                                        out.add(Origin(o2.kind, o2.key, o2.path, o2.via + o.via))
+            if not found:
+                out.add(o)
+        return out
+
     def _is_closure_arg(self, fn, op):
         return self._closure_def(fn, op) is not None
 
@@ -1386,6 +1411,19 @@ def bool_cond_edges(fn, prov, origin_pred, want):
             if truth is not None and truth == w:
                 out.add((b, dst, lab))
     return out
+
+
+def equal_edges(fn, prov, operand_pred, equal=True):
+    """Edges on which a comparison of values accepted by operand_pred(origin-without-the-comparison) is known to hold
+    (`a == b` taken true, or `a != b` taken false) -- or, with equal=False, known not to hold."""
+    def is_eq(o):
+        return operand_pred(o) and any((v[0] == "binop" and v[1] == "Eq") or (v[0] == "call" and re.search(r"PartialEq(<.*>)?>?::eq$", v[1])) for v in o.via) \
+            and not any((v[0] == "binop" and v[1] == "Ne") or (v[0] == "call" and re.search(r"PartialEq(<.*>)?>?::ne$", v[1])) for v in o.via)
+
+    def is_ne(o):
+        return operand_pred(o) and any((v[0] == "binop" and v[1] == "Ne") or (v[0] == "call" and re.search(r"PartialEq(<.*>)?>?::ne$", v[1])) for v in o.via) \
+            and not any((v[0] == "binop" and v[1] == "Eq") or (v[0] == "call" and re.search(r"PartialEq(<.*>)?>?::eq$", v[1])) for v in o.via)
+    return bool_cond_edges(fn, prov, is_eq, equal) | bool_cond_edges(fn, prov, is_ne, not equal)
 
 
 def discr_cond_edges(fn, prov, ty_rx, variants, place_pred=None):
